@@ -46,11 +46,15 @@ prop("C17",
      note="Bounded in buffer size like C09. Trusted: the allocator contract (block of the requested layout or null), handle_alloc_error modelled as non-returning.")
 
 prop("C04",
-     units=[("verus", "u7_inplace", None)],
+     # u7 is the property's own proof; u1_cell and u2_tape discharge the callee contracts it assumes
+     # (a defect in CellType::from_u8 or Memory::write breaks C04 without touching inplace.rs)
+     units=[("verus", "u7_inplace", None),
+            ("verus", "u1_cell", r"fn (from_u8|into_u8|wrapping_add|from_u64|into_u64)$"),
+            ("kani", "u2_tape", None)],
      level="proof",
      technique="Verus deductive proof: lock-step simulation invariant between the real InplaceInterpreter::execute_in (extracted verbatim) and a canonical Brainfuck small-step specification",
      design_ref="DESIGN.md section 4-U7, 5-C04",
-     text="Unbounded proof for every program shorter than 2^31 bytes, every input/fault oracle and every width (generic C): each outer-loop iteration is exactly one canonical step; the event log on return is the log of the canonical run, and Ok(true) is returned only when that run has halted.",
+     text="Unbounded proof for every program shorter than 2^31 bytes, every input/fault oracle and every width (generic C): each outer-loop iteration is exactly one canonical step; the event log on return is the log of the canonical run, and Ok(true) is returned only when that run has halted. The callee contracts it relies on are discharged in the same check: CellType conversions/addition (Verus, unbounded) and the tape / Context operations (Kani, bounded in tape size).",
      note="Assumes the tape view contracts (checked, bounded, in unit u2_tape), the Context::input/output oracle contracts (u2_tape) and the CellType ring contracts (proved in u1_cell; copied verbatim). Trusted: the canonical semantics in the unit template, vstd's str::as_bytes spec, Verus+Z3. Termination of the unlimited instance rests on the lock-step argument (not machine-checked).")
 
 prop("C07",
@@ -70,12 +74,12 @@ prop("C08",
      note="Per-backend stop paths of the bytecode interpreter and the JIT are added by units U5/U6 when present in the evidence.")
 
 prop("C02",
-     units=[("kani", "u5_bcint_ops", None)],
+     units=[("kani", "u5_bcint_ops", None), ("kani", "u9_bc_passes", None)],
      level="model_checking",
      technique="Kani contract harnesses calling each threaded-op instantiation of the real bcint::ops directly on a symbolic machine state and comparing the whole post-state with a bytecode step semantics",
      design_ref="DESIGN.md section 4-U5, 5-C02",
      text="Interpreter-op layer only: every op instantiation exercised computes bc_step over the documented stream layout for all cell/temp/register contents, offsets and immediates (complete per instantiation); instantiations are enumerated (quick: seeded sample; thorough: all 1116 at u8).",
-     note="NOT decided: ops::emit / build_threaded_code (op selection, operand word order, branch patching: Kani needs > 65 GB for the op_match! expansion), the bytecode generator bc.rs, the optimiser in front (C01), the release-build tail-call dispatcher. A defect there is not detected by this check.")
+     note="Also decided: the generator passes parameter_reordering, strip_noops, record_branch_targets, count_temps (unit u9). NOT decided: ops::emit / build_threaded_code (op selection, operand word order, branch patching: Kani needs > 65 GB for the op_match! expansion), the other bytecode-generator passes (emit_block, dead_store_elim, allocate_temps, zeroing_move_detection: std hash collections, Kani does not finish), the optimiser in front (C01), the release-build tail-call dispatcher. A defect there is not detected by this check.")
 
 prop("C06",
      units=[("kani", "u2_tape", None), ("kani", "u5_bcint_ops", None), ("kani", "u2b_bccontext", None)],
